@@ -9,6 +9,7 @@ import (
 	"os"
 	"os/exec"
 	"path/filepath"
+	"regexp"
 	"sort"
 	"strings"
 	"sync"
@@ -77,13 +78,24 @@ type Trace struct {
 	Queries string       `json:"queries"` // decoded answers of the map-valued queries
 }
 
+// ibc-go formats a math.Int with %d in one of its ICS-20 validation errors ("amount must be
+// strictly positive: got {824683936000}"), which prints the address of the big.Int. The text ends
+// up in an event attribute of the transfer module (not in consensus state) on chains with and
+// without the orbiter middleware alike; it is masked so that third-party noise is not attributed
+// to the orbiter.
+var pointerPrint = regexp.MustCompile(`got \{\d{6,}\}`)
+
 func renderEvents(evs []abci.Event) string {
 	var sb strings.Builder
 	for _, e := range evs {
 		sb.WriteString(e.Type)
 		sb.WriteByte('{')
 		for _, a := range e.Attributes {
-			sb.WriteString(a.Key + "=" + a.Value + ";")
+			v := a.Value
+			if strings.HasSuffix(a.Key, "error") {
+				v = pointerPrint.ReplaceAllString(v, "got {ptr}")
+			}
+			sb.WriteString(a.Key + "=" + v + ";")
 		}
 		sb.WriteString("}\n")
 	}
@@ -193,7 +205,16 @@ func firstDiffLine(a, b string) string {
 			if i < len(y) {
 				o = y[i]
 			}
-			return trunc(x[i], 400) + " VS " + trunc(o, 400)
+			// show the neighbourhood of the first differing byte
+			k := 0
+			for k < len(x[i]) && k < len(o) && x[i][k] == o[k] {
+				k++
+			}
+			from := k - 150
+			if from < 0 {
+				from = 0
+			}
+			return fmt.Sprintf("line %d differs at byte %d: …%s VS …%s", i, k, trunc(x[i][from:], 450), trunc(o[minInt(from, len(o)):], 450))
 		}
 	}
 	return "length"
@@ -489,4 +510,11 @@ func C19ReplayMain(streamFile, traceFile string) error {
 	}
 	out, _ := json.Marshal(tr)
 	return os.WriteFile(traceFile, out, 0o644)
+}
+
+func minInt(a, b int) int {
+	if a < b {
+		return a
+	}
+	return b
 }
